@@ -125,7 +125,7 @@ pub fn pcase_strategy(mid: usize, big: usize) -> impl Strategy<Value = PCase> {
         0u8..5,
         (-2.0..2.0f64, -2.0..2.0f64),
         prop_oneof![2 => Just(None), 3 => (gen::cut_mode(), gen::tree_mode()).prop_map(Some)],
-        0u8..5,
+        0u8..super::c08::PATHS,
         0u8..3,
     )
         .prop_map(|(raw, noise_raw, plx, ply, mode, (a, b), tree, path, ord)| {
